@@ -13,8 +13,8 @@ import (
 	"strings"
 
 	"golang.org/x/tools/go/packages"
-	"golang.org/x/tools/go/ssa"
-	"golang.org/x/tools/go/ssa/ssautil"
+	"trzszlint/xssa"
+	"trzszlint/xssa/ssautil"
 )
 
 const trzszPath = "github.com/trzsz/trzsz-go/trzsz"
@@ -34,6 +34,9 @@ type Program struct {
 	Blocks        int
 	Instrs        int
 	ConstBranches int // branches on a constant condition whose dead side was pruned
+	Inlined       int      // call sites of helpers unknown to the reference tree that were expanded (inlinenew.go)
+	InlinedAway   []string // such helpers with no remaining use
+	Reordered     []string // functions whose parameter order was put back to the reference tree's
 	cgCache       *CG
 }
 
@@ -100,10 +103,14 @@ func loadProgram(goos, goarch string) (*Program, error) {
 			p.SPkg = sp
 		}
 	}
+	dropped, err := inlineNewHelpers(p)
+	if err != nil {
+		return nil, err
+	}
 	// index functions
 	var addFn func(name string, f *ssa.Function)
 	addFn = func(name string, f *ssa.Function) {
-		if f == nil || len(f.Blocks) == 0 {
+		if f == nil || len(f.Blocks) == 0 || dropped[f] {
 			return
 		}
 		p.Funcs[name] = f
@@ -147,7 +154,11 @@ func loadProgram(goos, goarch string) (*Program, error) {
 		}
 	}
 	for _, f := range p.AllFns {
-		p.ConstBranches += pruneConstBranches(f)
+		n := pruneConstBranches(f)
+		p.ConstBranches += n
+		if n > 0 && expanded[f] {
+			ssa.Cleanup(f)
+		}
 	}
 	sort.Slice(p.AllFns, func(i, j int) bool { return p.AllFns[i].Pos() < p.AllFns[j].Pos() })
 	if len(p.AllFns) < 300 {
